@@ -151,7 +151,7 @@ func c28FieldFloors(c *core.Ctx, res *core.LockResult, spec core.LockSpec) {
 
 func init() {
 	register("C28", "other", "T1 LockSet, T12 Purity, atomicity (single critical section)",
-		"Decides the lock discipline that race freedom and linearizability of the five thread-safe components depend on: every access to a guarded field holds its mutex (write mode for writes and for calls classified mutating by the purity analysis), every exit releases what it acquired, helper functions are checked with the meet of the lock states at all their call sites, and every exported operation touches guarded state inside one critical section (so lock order is a linearization order); an operation that does run several critical sections of its own mutex (inline or through methods of the same receiver that lock themselves) must neither overwrite blindly what an earlier section read (C28.rmw) nor see in separate sections fields that a writer updates together (C28.views, view consistency); an operation on a container that accessors read without the component's mutex must not insert a key and remove the same key again before it returns, because those accessors see the entry in between (C28.transient). Lock exceptions granted to a function extend to unexported helpers called only from it. Sequential correctness of each operation is not decided here (C22/C29/C30).",
+		"Decides the lock discipline that race freedom and linearizability of the five thread-safe components depend on: every access to a guarded field holds its mutex (write mode for writes and for calls classified mutating by the purity analysis), every exit releases what it acquired, helper functions are checked with the meet of the lock states at all their call sites, and every exported operation touches guarded state inside one critical section (so lock order is a linearization order); an operation that does run several critical sections of its own mutex (inline or through methods of the same receiver that lock themselves) must neither overwrite blindly what an earlier section read (C28.rmw) nor see in separate sections fields that a writer updates together (C28.views, view consistency); an operation on a container that accessors read without the component's mutex must not insert a key and remove the same key again before it returns, because those accessors see the entry in between (C28.transient). Lock exceptions granted to a function extend to unexported helpers called only from it. Methods of an unexported adapter type whose values are created only by composite literals handed directly to functions of the package that merely call the parameter's methods (a direct call replaced by a call through a small interface) are entered with the meet of the lock states at those hand-over calls (c28_adapter.go). Sequential correctness of each operation is not decided here (C22/C29/C30).",
 		[]string{"lock identity is by mutex field, not by instance (RacerD-style)", "unexported helpers have no callers outside their package; exported methods are assumed to be entered with no lock held", "constructors (composite literals) publish the object only after initialisation"},
 		runC28)
 }
@@ -162,7 +162,7 @@ func runC28(c *core.Ctx) {
 		for f := range flushableLockSpec().Guarded {
 			c.Fld(f)
 		}
-		res := core.RunLockset(p, flushableLockSpec())
+		res := c28RunLockset(p, flushableLockSpec())
 		reportLockset(c, res, c28WidenExceptions(res, c28Exceptions), nil)
 		c28FieldFloors(c, res, flushableLockSpec())
 		c.Extra["flushable_acquires"] = res.Acquires
@@ -171,14 +171,14 @@ func runC28(c *core.Ctx) {
 		for f := range semaphoreLockSpec().Guarded {
 			c.Fld(f)
 		}
-		res := core.RunLockset(p, semaphoreLockSpec())
+		res := c28RunLockset(p, semaphoreLockSpec())
 		reportLockset(c, res, nil, nil)
 		c28FieldFloors(c, res, semaphoreLockSpec())
 	})
 	c.Clause("C28.wlru", func() {
 		spec, pur := wlruLockSpec(p)
 		c.Fld("utils/wlru.Cache.lru")
-		res := core.RunLockset(p, spec)
+		res := c28RunLockset(p, spec)
 		reportLockset(c, res, nil, nil)
 		c28FieldFloors(c, res, spec)
 		// purity table itself is evidence
@@ -202,7 +202,7 @@ func runC28(c *core.Ctx) {
 		for f := range spec.Guarded {
 			c.Fld(f)
 		}
-		res := core.RunLockset(p, spec)
+		res := c28RunLockset(p, spec)
 		reportLockset(c, res, c28WidenExceptions(res, c28Exceptions), nil)
 		c28FieldFloors(c, res, spec)
 	})
@@ -230,7 +230,7 @@ func runC28(c *core.Ctx) {
 			key := strings.Join(cm.spec.Pkgs, ",")
 			res := cache[key]
 			if res == nil {
-				res = core.RunLockset(p, cm.spec)
+				res = c28RunLockset(p, cm.spec)
 				cache[key] = res
 			}
 			for _, f := range p.MethodsOf(cm.typ) {
